@@ -75,6 +75,9 @@ def inputs(nmac):
         out.append(("call0:" + NAMES[i], expr(sym(NAMES[i]))))
     for i in range(nmac):
         out.append(("call2:" + NAMES[i], expr(sym(NAMES[i]), ("int", 2), g)))
+    # falsy atoms as arguments (an empty string, zero, the empty keyword): code that tests a model for truth instead of identity slips here
+    for i in range(min(nmac, 2)):
+        out.append(("call-falsy:" + NAMES[i], expr(sym(NAMES[i]), ("int", 0), ("str", ""), ("kw", ""))))
     out += [
         ("non-macro-call", expr(sym("f"), ("int", 1))),
         ("symbol", sym("x")),
